@@ -35,13 +35,17 @@ def build_pool(seed, n=60):
     pool.append({'src': 'ADC = 3\nfee:\naddi x1, x0, ADC + 1\nj fee\n', 'compress': True, 'dicts': True})
     # text with backslashes that are no escapes (Python itself warns about those: process-wide warning state must not matter)
     pool.append({'src': 'string 50\\% off\nalign 2\nK9 = 1 + 2\naddi x1, x0, K9\nstring a\\qb \\d\nalign 2\n', 'compress': False, 'dicts': True})
+    # every label-moving step at least once (short li, near call, compression, align), four labels, run with a left-over table
+    for k in range(2):
+        pool.append({'src': 'A0:\nli x5, 1\nA1:\naddi x8, x8, 1\nA2:\ncall A0\nbytes 1 2\nalign 8\nA3:\nj A1\nbeqz x8, A3\ntail A2\nli x6, A2\ndw A3\ndw A1\n',
+                     'compress': bool(k), 'dicts': True, 'stale': True})
     # same label / constant names, different values
     while len(pool) < n - 6:
         items = randprog.gen(rng, dict(n=(3, 25), labels=(1, 4)))
         if rng.random() < 0.6:
             items = randprog.constify(rng, items, 0.4)
         pool.append({'src': '\n'.join(P.render(items)) + '\n', 'compress': rng.random() < 0.5, 'dicts': rng.random() < 0.7})
-        if len(pool) % 5 == 0:
+        if len(pool) % 3 == 0:
             pool[-1]['dicts'] = True
             pool[-1]['stale'] = True
     # include trees (exercise include_dirs)
